@@ -342,6 +342,18 @@ where
         proofs: &[Proof<E>],
         rng: &mut R,
     ) -> Result<bool, Error> {
+        if commitments.len() != points.len()
+            || commitments.len() != values.len()
+            || commitments.len() != proofs.len()
+        {
+            return Err(Error::IncorrectInputLength(format!(
+                "Expected as many points, values and proofs as commitments: {}, {}, {}, {}",
+                points.len(),
+                values.len(),
+                proofs.len(),
+                commitments.len()
+            )));
+        }
         let check_time =
             start_timer!(|| format!("Checking {} evaluation proofs", commitments.len()));
 
